@@ -194,7 +194,19 @@ NEEDS.update({
  "p18": "input: a policy whose rule has only ipBlock peers, then a pod event for a pod of the policy's namespace",
  "p19": "interleaving: the list API walks the labels of a listed reserved entry while the reservation is withdrawn (labels map mutated in place)",
 })
-OTHER = {'p07': ['C02'], 'p01': ['C04'], 'n03': ['C04'], 'n01': ['C04'], 'n08': ['C06'], 'm06': ['C09'], 'm02': ['C03'], 'l17': ['C14'], 'l08': ['C09'], 'l10': ['C04'], 'l01': ['C04'], 'k20': ['C09'], 'k02': ['C07'], 'k05': ['C09'], 'j08': ['C05'], 'j01': ['C04'], 'b02': ['C03', 'C05'], 'a04': ['C10'], 'd02': ['C06'], 'd09': ['C05', 'C06'], 'e06': ['C08', 'C05'], 'e01': ['C09', 'C05'], 'e10': ['C04'], 'e04': ['C01'], 'f13': ['C12'], 'd01': ['C04'], 'i02': ['C05'], 'i06': ['C09', 'C05'], 'i04': ['C01'], 'g02b': ['C06'], 'g10': ['C04'], 'g19': ['C06'], 'f16a': ['C15'], 'f15b': ['C16']}
+NEEDS.update({
+ "q02": "fault + timing: the pod is deleted while its bind is in flight (pods/binding answers NotFound); the queued release event has lost the policy annotation",
+ "q05": "interleaving: resync uses the snapshot's uid after re-reading the IP (same edit as n03)",
+ "q06": "input: index-named app with members x-1 and x-10; a lookup by key matches by prefix",
+ "q11": "state + paging: more than one page, pods of mixed liveness at the same offset of different pages",
+ "q12": "input: the first entry of the networks annotation names an interface (net-a@net9), or kubelet names the interface something else than eth0",
+ "q13": "stale read: the daemon's pod GET answered from a lagging watch cache (resourceVersion=0) that still holds the pre-bind pod or the previous incarnation",
+ "q14": "input: the same host port number mapped for TCP and UDP by one pod",
+ "q15": "event order + cache ahead: a policy updated and another deleted, the update handled first while the lister already shows both changes",
+ "q16": "interleaving: a pod update event handled between the pod listing and the iptables-save of the stale pod-chain cleanup of a full sync",
+ "q20": "multi-step: remove an address from the last range of a pool and insert it back (tryMerge at the tail)",
+})
+OTHER = {'q02': ['C03'], 'q05': ['C04'], 'q06': ['C04', 'C01'], 'p07': ['C02'], 'p01': ['C04'], 'n03': ['C04'], 'n01': ['C04'], 'n08': ['C06'], 'm06': ['C09'], 'm02': ['C03'], 'l17': ['C14'], 'l08': ['C09'], 'l10': ['C04'], 'l01': ['C04'], 'k20': ['C09'], 'k02': ['C07'], 'k05': ['C09'], 'j08': ['C05'], 'j01': ['C04'], 'b02': ['C03', 'C05'], 'a04': ['C10'], 'd02': ['C06'], 'd09': ['C05', 'C06'], 'e06': ['C08', 'C05'], 'e01': ['C09', 'C05'], 'e10': ['C04'], 'e04': ['C01'], 'f13': ['C12'], 'd01': ['C04'], 'i02': ['C05'], 'i06': ['C09', 'C05'], 'i04': ['C01'], 'g02b': ['C06'], 'g10': ['C04'], 'g19': ['C06'], 'f16a': ['C15'], 'f15b': ['C16']}
 only = sys.argv[1:]
 for sid, (prop, pkg) in SEEDS.items():
     if only and sid not in only: continue
